@@ -11,7 +11,7 @@
 (* Without the guard a cyclic reference recurses for ever (stack overflow  *)
 (* in the real code).                                                      *)
 (***************************************************************************)
-EXTENDS Naturals, Sequences, FiniteSets, TLC
+EXTENDS ParseStackRules, TLC
 
 CONSTANTS N,        \* number of declarations
           MaxRefs,  \* references per declaration
@@ -27,7 +27,8 @@ Init == /\ refs \in [Decls -> RefSeqs]
         /\ stack = <<>> /\ built = {} /\ pushes = 0
         /\ todo = [i \in 1..N |-> i]               \* top-level cursors in source order
 
-OnStack == {stack[i].decl : i \in DOMAIN stack}
+DeclsOn == [i \in DOMAIN stack |-> stack[i].decl]
+OnStack == OnStackOf(DeclsOn)
 
 Begin(d, st) ==          \* begin_parsing(PartialType(d))
   /\ stack' = Append(st, [decl |-> d, next |-> 1])
@@ -59,8 +60,8 @@ Next == TopLevel \/ Step
 Spec == Init /\ [][Next]_vars /\ WF_vars(Next)
 
 Done == stack = <<>> /\ todo = <<>>
-NoDeclTwice == \A i, j \in DOMAIN stack : i # j => stack[i].decl # stack[j].decl
-Bounded == Len(stack) <= N
+NoDeclTwice == NoRepeat(DeclsOn)
+Bounded == BoundedBy(DeclsOn, Decls)
 PushedOnce == pushes <= N                       \* total work bounded by the number of declarations
 WellNested == \A i \in DOMAIN stack : stack[i].decl \notin built
 EmptyAtEnd == todo = <<>> /\ ~ENABLED Step => stack = <<>>
